@@ -80,6 +80,8 @@ mod parsing;
 mod request;
 mod streams;
 mod tls;
+#[cfg(feature = "verif-hooks")]
+pub mod verif;
 
 pub use crate::error::{Error, ErrorKind, InvalidResponseKind, Result};
 #[cfg(feature = "multipart-form")]
